@@ -178,6 +178,9 @@ fn run_pass(exe: &Path, a: &CheckArgs, first: u64, n: u64) -> Pass {
     let mut reports: Vec<Report> = vec![];
     let mut dead_scenarios: Vec<(u64, String)> = vec![];
     let mut dead_in_reference: Vec<(u64, String)> = vec![];
+    let mut kept: std::collections::HashMap<(String, String), u32> = std::collections::HashMap::new();
+    #[allow(unused_assignments)]
+    let mut violations_seen = 0u64;
     let mut active = jobs;
     while active > 0 {
         match rx.recv_timeout(Duration::from_secs(1)) {
@@ -191,9 +194,16 @@ fn run_pass(exe: &Path, a: &CheckArgs, first: u64, n: u64) -> Pass {
                     workers[s].current = Some((i, Instant::now()));
                 }
             }
-            Ok(Msg::Report(s, r)) => {
+            Ok(Msg::Report(s, mut r)) => {
                 workers[s].current = None;
                 workers[s].next_start = r.idx + jobs as u64;
+                // bound memory: keep the replay data of the first few violations of each class only
+                r.violations.retain(|v| {
+                    let c = kept.entry((v.oracle.clone(), v.class.clone())).or_insert(0u32);
+                    *c += 1;
+                    *c <= 3
+                });
+                violations_seen += kept.values().map(|_| 0u64).sum::<u64>();
                 reports.push(*r);
             }
             Ok(Msg::Eof(s)) => {
@@ -590,8 +600,14 @@ pub fn worker(fam: &dyn Family, prop: &str, tier: Tier, seed: u64, start: u64, e
             writeln!(o, "BEGIN {i}").ok();
             o.flush().ok();
         }
-        let rep = fam.run(prop, tier, seed, i);
+        let mut rep = fam.run(prop, tier, seed, i);
         let bad = !rep.violations.is_empty();
+        // keep the report small: one violation per (oracle, class), at most four
+        {
+            let mut seen = std::collections::HashSet::new();
+            rep.violations.retain(|v| seen.insert((v.oracle.clone(), v.class.clone())));
+            rep.violations.truncate(4);
+        }
         {
             let mut o = stdout.lock();
             writeln!(o, "REPORT {}", serde_json::to_string(&rep.to_json()).unwrap()).ok();
